@@ -281,6 +281,9 @@ pub fn run_glr(input: &'static str, partial: bool, max_trees: usize, prev: Optio
         let t = tab();
         let first = |r: rustemo::Result<Forest<'_, str, Pk, Tk>>| -> String {
             match r {
+                // parse-only mode: counting / extracting trees of a highly ambiguous forest is exponential in the
+                // implementation (Forest::solutions is not memoised) and is not what the comparison is about
+                Ok(_) if max_trees == 0 => "ok parse-only".into(),
                 Ok(f) => match f.get_first_tree() {
                     Some(tr) => {
                         let mut b = TreeBuilder::new();
